@@ -28,6 +28,8 @@ META = {
         "C01.4 ListProxy/DictProxy override every inserting builtin method (OVERRIDE)",
         "C01.5 only validated elements reach the builtin container (TAINT at every delegation site)",
         "C01.6 _validate implementations return on every path and chain to a validating parent",
+        "C01.7 Field.validate: required -> _validate -> custom validator; typed-container validators return a proxy built for (cfg, self); proxy owner never re-bound",
+        "C01.8 declared bounds/lengths enforced with None-safe, inclusive guards; normalise-then-check (shared with C05.1-3)",
     ],
     "not_decided": ["that each validator's predicate is exactly the declared constraint for every value (structural part: C05)"],
 }
@@ -608,8 +610,105 @@ def check_validate_chain(ctx):
         ctx.ob("validate.chain", f, "%s: required -> _validate -> validator" % f.qualname, ok, why)
 
 
+def check_container_validators(ctx):
+    """ListField/DictField: _validate and to_python hand back either the raw value (no item field
+    configured) or a proxy *constructed* for this configuration and this field -- never a proxy that
+    was built for another field and merely re-labelled."""
+    an, model = ctx.an, ctx.model
+    proxies = [c for c in model.classes.values() if c.node is not None and (c.is_subclass_of("list") or c.is_subclass_of("dict"))]
+    owner_attrs = set()
+    for c in proxies:
+        init = c.methods.get("__init__")
+        if init is None:
+            continue
+        for x in ast.walk(init.node):
+            if isinstance(x, ast.Assign) and isinstance(x.value, ast.Name) and x.value.id in [a.arg for a in init.params]:
+                for t in x.targets:
+                    if isinstance(t, ast.Attribute) and isinstance(t.value, ast.Name) and t.value.id == init.self_name:
+                        owner_attrs.add(t.attr)
+    ctx.need(bool(owner_attrs), "proxy constructors no longer record their configuration / field")
+    # (a) nobody re-binds cfg / list_field / dict_field of an existing proxy
+    for fn in an.fns():
+        ft = an.ft(fn)
+        for n in an.cfg(fn).nodes:
+            if n.kind != "assign" or not isinstance(n.ast, (ast.Assign, ast.AugAssign, ast.AnnAssign)):
+                continue
+            tgts = n.ast.targets if isinstance(n.ast, ast.Assign) else [n.ast.target]
+            for t in tgts:
+                if isinstance(t, ast.Attribute) and t.attr in owner_attrs:
+                    bt = ft.type_of(t.value, ft.env_in.get(n) or {})
+                    is_proxy = bt != ANY and any(isinstance(a, str) and a in model.classes and model.classes[a] in proxies for a in bt)
+                    if not is_proxy:
+                        continue
+                    ok = fn.cls in proxies and fn.name == "__init__" and isinstance(t.value, ast.Name) and t.value.id == fn.self_name
+                    ctx.ob("proxy.owner-fixed", fn, n.ast, ok,
+                           "set once by the proxy's constructor" if ok else
+                           "%s re-binds .%s of an existing proxy: its items were validated by another field and are now presented as this "
+                           "field's" % (fn.qualname, t.attr), node=n, nontrivial=not ok)
+    # (b) what the typed fields return
+    for cname, pname in (("ListField", "ListProxy"), ("DictField", "DictProxy")):
+        pc = model.cls(pname)
+        for mname in ("_validate", "to_python"):
+            f = model.method(cname, mname)
+            ft = an.ft(f)
+            vparam = f.positional_params[2]
+            for r in returns_of(an, f):
+                srcs = value_sources(f, r.ast.value, r) if r.ast.value is not None else []
+                ok, why = True, "returns the raw value only without item validation configured, otherwise a proxy constructed for (cfg, self)"
+                for kind, payload in srcs:
+                    if kind == "param" and payload == vparam:
+                        # raw value: only when no item/key/value field is configured -- the return must be
+                        # unreachable once the edges that establish "untyped" are cut
+                        def untyped_edge(a, b, lbl):
+                            e = a.ast
+                            if a.kind != "test":
+                                return False
+                            if isinstance(e, ast.Attribute) and e.attr in ("field", "_use_proxy", "key_field", "value_field") and lbl is False:
+                                return True
+                            if isinstance(e, ast.Call) and ast.unparse(e.func) == "isinstance" and "AnyField" in ast.unparse(e.args[1]) and lbl is True:
+                                return True
+                            if isinstance(e, ast.Compare) and isinstance(e.ops[0], ast.Is) and "field" in ast.unparse(e.left) and lbl is True:
+                                return True
+                            if isinstance(e, ast.Compare) and isinstance(e.ops[0], ast.IsNot) and "field" in ast.unparse(e.left) and lbl is False:
+                                return True
+                            return False
+                        gg = an.cfg(f)
+                        p = gg.path(gg.entry, lambda n, r=r: n is r, may_raise=lambda n: an.node_may_raise(f, n),
+                                    edge_filter=lambda a, b, lbl: not untyped_edge(a, b, lbl))
+                        if p is not None:
+                            ok, why = False, "the unvalidated value itself is returned although an item field is configured"
+                    elif kind == "expr" and isinstance(payload, ast.Call):
+                        nodes = an.cfg(f).nodes_for(payload)
+                        tg = an.targets(f, nodes[0]) if nodes else []
+                        if tg and all(t.kind == "ctor" and t.cls is pc for t in tg):
+                            a = payload.args
+                            good = len(a) >= 2 and isinstance(a[1], ast.Name) and a[1].id == f.self_name and \
+                                all(k == "param" for k, _ in value_sources(f, a[0], nodes[0]))
+                            if not good:
+                                ok, why = False, "the proxy is not constructed for (cfg, self)"
+                        else:
+                            ok, why = False, "returns %s, which is not a %s constructed for this field: its items were not validated by this field" % (
+                                ast.unparse(payload)[:40], pname)
+                    else:
+                        ok, why = False, "returns a value of unknown origin (%s)" % kind
+                ctx.ob("container.returns-own-proxy", f, r.ast, ok, why, node=r)
+
+
+def check_shared_constraints(ctx):
+    """C05.1/2/3 re-evaluated here: a validated gateway keeps invalid values out only if the bounds,
+    lengths and normalisation it enforces are the declared ones."""
+    from . import c05
+    sub = type(ctx)(ctx.pid, ctx.an, ctx.tier)
+    c05.check_bounds(sub)
+    c05.check_string_order(sub)
+    c05.check_bool_number(sub)
+    ctx.obligations.extend(sub.obligations)
+
+
 def check(ctx):
     check_gateway(ctx)
+    check_container_validators(ctx)
+    check_shared_constraints(ctx)
     check_validate_chain(ctx)
     check_load_tree(ctx)
     check_override(ctx)
